@@ -313,6 +313,34 @@ func (e *Enc) block(b *ssa.BasicBlock) {
 	}
 	e.reach[b] = e.curR
 
+	// loop exit assertions: on every edge that leaves a loop (normal exit or break, not a return), with the
+	// state at the end of the loop-side block
+	for i, p := range inPreds {
+		for _, xl := range e.loopList {
+			if xl.lc == nil || len(xl.lc.Exits) == 0 || !xl.body[p] || xl.body[b] {
+				continue
+			}
+			saveR, saveH := e.curR, e.cur
+			e.curR, e.cur = inEdges[i], e.hout[p]
+			ctx := e.baseCtx()
+			ctx.heap = e.hout[p]
+			ctx.at = p
+			ctx.atEnd = true
+			ctx.params = map[string]bool{}
+			for _, pa := range e.fn.Params {
+				ctx.params[pa.Name()] = true
+			}
+			for j, ex := range xl.lc.Exits {
+				t, err := ctx.EvalBool(ex.E)
+				if err != nil {
+					e.fatal("loop %d exit: %v", xl.ordinal, err)
+				}
+				e.assertOb(fmt.Sprintf("loop%d/exit.b%d#%d", xl.ordinal, p.Index, j+1), t, "at loop exit: "+ex.Src, token.NoPos)
+			}
+			e.curR, e.cur = saveR, saveH
+		}
+	}
+
 	li := e.loops[b]
 	if li != nil {
 		// establish invariants on each entry edge
